@@ -46,7 +46,7 @@ main ()
       uint64_t base;
       is >> base;
       coverage cov;
-      std::string tok, out;
+      std::string tok, out, flags;      // flags: what remove / remove_all returned ("something was actually removed")
       bool first = true;
       while (is >> tok)
 	{
@@ -54,7 +54,7 @@ main ()
 	  auto rs = ranges (tok.substr (2));
 	  std::string res;
 	  if (op == 'a') { cov.add (base + rs[0].first, rs[0].second); res = show (cov, base); }
-	  else if (op == 'r') { cov.remove (base + rs[0].first, rs[0].second); res = show (cov, base); }
+	  else if (op == 'r') { flags += cov.remove (base + rs[0].first, rs[0].second) ? '1' : '0'; res = show (cov, base); }
 	  else if (op == 'i') res = show (cov.intersect (base + rs[0].first, rs[0].second), base);
 	  else if (op == 'c') res = cov.is_covered (base + rs[0].first, rs[0].second) ? "1" : "0";
 	  else if (op == 'o') res = cov.is_overlap (base + rs[0].first, rs[0].second) ? "1" : "0";
@@ -62,7 +62,7 @@ main ()
 	    {
 	      coverage other;
 	      for (auto &r: rs) other.add (base + r.first, r.second);
-	      if (op == 'A') cov.add_all (other); else cov.remove_all (other);
+	      if (op == 'A') cov.add_all (other); else flags += cov.remove_all (other) ? '1' : '0';
 	      res = show (cov, base);
 	    }
 	  else res = "bad-op";
@@ -70,7 +70,7 @@ main ()
 	  first = false;
 	  out += res;
 	}
-      puts (out.c_str ());
+      puts ((out + " #" + flags).c_str ());
     }
   return 0;
 }
